@@ -1,6 +1,6 @@
 (** Dispatch table used by the extracted runner: property number -> model runner / monitor. *)
 From RRE Require Import Base.Sx.
-From RRE Require Model.Watermark Model.Tms Model.ProofGraph Model.Undo Model.Module Model.Window Model.Join Model.KB Model.Index Model.State Model.ReteAgenda Model.EngineConc Model.Parallel Model.Incremental Model.ExprShape Model.ForwardSpec Model.Grl Model.Backward.
+From RRE Require Model.Watermark Model.Tms Model.ProofGraph Model.Undo Model.Module Model.Window Model.StreamAlpha Model.Join Model.KB Model.Index Model.State Model.ReteAgenda Model.EngineConc Model.Parallel Model.Incremental Model.ExprShape Model.ForwardSpec Model.Grl Model.Backward.
 Open Scope Z_scope.
 
 Definition run_by_id (id : Z) (c : sx) : sx :=
@@ -16,7 +16,7 @@ Definition run_by_id (id : Z) (c : sx) : sx :=
   | 9 => Backward.run_sx c
   | 11 => Backward.run_sx c
   | 10 => match c with L [A 1; bc] => Backward.run_sx bc | _ => Undo.run_sx c end
-  | 12 => Window.run_sx c
+  | 12 => match c with L (A 3 :: _) => StreamAlpha.run_sx c | _ => Window.run_sx c end
   | 13 => Watermark.run_sx c
   | 14 => Join.run_sx c
   | 15 => KB.run_sx c
@@ -45,7 +45,7 @@ Definition ok_by_id (id : Z) (c o : sx) : Z :=
   | 9 => b2z (Backward.ok_sx c o)
   | 11 => b2z (Backward.ok_sx c o)
   | 10 => match c with L [A 1; bc] => b2z (Backward.ok_sx_c10 bc o) | _ => b2z (Undo.ok_sx c o) end
-  | 12 => b2z (Window.ok_sx c o)
+  | 12 => match c with L (A 3 :: _) => b2z (StreamAlpha.ok_sx c o) | _ => b2z (Window.ok_sx c o) end
   | 13 => b2z (Watermark.ok_sx c o)
   | 14 => b2z (Join.ok_sx c o)
   | 15 => b2z (KB.ok_sx c o)
